@@ -118,6 +118,56 @@ fn case(a: &[u32], or: Range<usize>, b: &[u32], nr: Range<usize>, out: &mut Loca
             judge("capture_diff(Patience)", &pairs, a, &or, b, &nr, &|| format!("ops={}", fmt_ops(&ops)), out);
         }
     }
+    // old and new are two ranges of ONE buffer; and lookups whose index space straddles 2^32
+    {
+        let mut buf: Vec<u32> = a.to_vec();
+        buf.extend_from_slice(b);
+        let nr2 = a.len() + nr.start..a.len() + nr.end;
+        out.eval();
+        match guard(|| capture_diff(Algorithm::Patience, &buf[..], or.clone(), &buf[..], nr2.clone())) {
+            Err(p) => out.violation("panic", format!("capture_diff(Patience) on a shared buffer panicked: {} | old={} new={}", p, fmt_seq(a), fmt_seq(b))),
+            Ok(ops) => {
+                let mut pairs = Vec::new();
+                for op in &ops {
+                    if let DiffOp::Equal { old_index, new_index, len } = *op {
+                        for k in 0..len {
+                            let (o, n) = (old_index + k, (new_index + k).wrapping_sub(a.len()));
+                            if o < a.len() && n < b.len() && a[o] == b[n] {
+                                pairs.push((o, n));
+                            }
+                        }
+                    }
+                }
+                judge("capture_diff(Patience) on two ranges of ONE shared buffer", &pairs, a, &or, b, &nr, &|| format!("ops={}", fmt_ops(&ops)), out);
+                out.count("shared_buffer_runs");
+            }
+        }
+        if usize::BITS >= 64 && a.len() <= 1000 && b.len() <= 1000 {
+            let pivot = (1usize << 32) - 1;
+            let base_o = pivot - or.start - (or.len().saturating_sub(1)) / 2;
+            let base_n = pivot - nr.start - (nr.len().saturating_sub(1)) / 3;
+            let sa = crate::mon::StrictLookup { data: a, allowed: base_o + or.start..base_o + or.end, base: base_o };
+            let sb = crate::mon::StrictLookup { data: b, allowed: base_n + nr.start..base_n + nr.end, base: base_n };
+            out.eval();
+            match guard(|| capture_diff(Algorithm::Patience, &sa, base_o + or.start..base_o + or.end, &sb, base_n + nr.start..base_n + nr.end)) {
+                Err(p) => out.violation("panic", format!("capture_diff(Patience) through lookups around 2^32 panicked: {} | old={} new={}", p, fmt_seq(a), fmt_seq(b))),
+                Ok(ops) => {
+                    let mut pairs = Vec::new();
+                    for op in &ops {
+                        if let DiffOp::Equal { old_index, new_index, len } = *op {
+                            for k in 0..len {
+                                let (o, n) = ((old_index + k).wrapping_sub(base_o), (new_index + k).wrapping_sub(base_n));
+                                if o < a.len() && n < b.len() && a[o] == b[n] {
+                                    pairs.push((o, n));
+                                }
+                            }
+                        }
+                    }
+                    judge("capture_diff(Patience) through lookups whose index space straddles 2^32", &pairs, a, &or, b, &nr, &|| format!("ops={}", fmt_ops(&ops)), out);
+                }
+            }
+        }
+    }
     // old items u32, new items of another type with a different Hash
     let wb: Vec<crate::mon::WideId> = b.iter().map(|x| crate::mon::WideId(*x as u64)).collect();
     out.eval();
@@ -250,6 +300,25 @@ pub fn families() -> Vec<Box<dyn Family>> {
                         }
                     }
                 }
+            },
+        ),
+        family(
+            "structured",
+            "structured inputs (palindromes, reversal, rotation, interleaving, halves swapped, doubled, ...) up to 60 items, with 0..3 extra unique items scattered on both sides",
+            false,
+            32,
+            |cfg| cfg.n(20_000, 400_000),
+            |idx, cfg, out| {
+                let mut rng = Rng::for_case(cfg.seed, "c15.structured", idx);
+                let (mut a, mut b, kind) = gen::structured_pair(&mut rng, if cfg.tiny { 6 } else { 60 });
+                for u in 0..rng.below(4) {
+                    let pa = rng.below(a.len() + 1);
+                    a.insert(pa, 1000 + u as u32);
+                    let pb = rng.below(b.len() + 1);
+                    b.insert(pb, 1000 + u as u32);
+                }
+                out.sample(|| format!("structure={} old={} new={}", kind, fmt_seq(&a), fmt_seq(&b)));
+                case(&a, 0..a.len(), &b, 0..b.len(), out);
             },
         ),
         family(
